@@ -1,6 +1,6 @@
 /*UNIT
 {"props": ["C17", "C18"], "src": ["lib/hashtable.c"], "spec": ["hashtable.spec"], "tags": ["split"], "mode": "plain", "kind": "bounded",
- "bound": "8 buckets, two of them (2 and 5) hold 0..2 nodes each, the others are empty; keys of length 1..2 (arbitrary bytes); the iterator under test is fresh or parked on any node; that node is present with 1 or 2 iterators parked, or already removed with this iterator parked; other nodes: any presence / 0..2 parked iterators; notifiers: none, or 2 global + 1 per key",
+ "bound": "8 buckets, two of them (2 and 5) hold 0..2 nodes each, the others are empty; keys of length 1..2 (arbitrary bytes); the iterator under test is fresh or parked on any node; that node is present or already removed, with this iterator parked; other nodes: reference count 1 or 2, any split between presence and parked iterators; notifiers: 2 global + 1 per key",
  "unwind": 12, "cbmc_flags": ["--no-malloc-may-fail"],
  "functions": ["hashtable_iter_next", "hashtable_node_deref", "hashtable_node_destroy", "hashtable_notify"],
  "restrict_fp": ["hashtable_notify.function_pointer_call.1/verif_notify_cb", "hashtable_notify.function_pointer_call.2/verif_notify_cb",
@@ -18,6 +18,7 @@
  *    now released and its deletion announced exactly once (DELETED / FREE notifiers);
  *  - no freed memory is touched (CBMC pointer checks on the heap-allocated nodes), everything else unchanged.
  * A removed node that another iterator still holds may be returned or skipped (the property allows both). */
+#define HT_CONCRETE_REFCOUNT 1
 #include "ht_common.h"
 
 static void verif_case(unsigned n1, unsigned n2, unsigned gnot, unsigned nnot, int pos, int x_present, int x_iters)
